@@ -11,6 +11,7 @@ import multiprocessing as mp
 from .process_executor import ProcessPoolExecutor, EXTRA_QUEUED_CALLS
 from .backend.context import cpu_count
 from .backend import get_context
+from . import _verif
 
 __all__ = ["get_reusable_executor"]
 
@@ -239,6 +240,8 @@ class _ReusablePoolExecutor(ProcessPoolExecutor):
                 return
 
             self._wait_job_completion()
+            if _verif.ENABLED:
+                _verif.point("resize.jobs_done")
 
             # Some process might have returned due to timeout so check how many
             # children are still alive. Use the _process_management_lock to
@@ -249,12 +252,16 @@ class _ReusablePoolExecutor(ProcessPoolExecutor):
                 self._max_workers = max_workers
                 for _ in range(max_workers, nb_children_alive):
                     self._call_queue.put(None)
+                if _verif.ENABLED:
+                    _verif.point("resize.sentinels_posted")
             while (
                 len(self._processes) > max_workers and not self._flags.broken
             ):
                 time.sleep(1e-3)
 
             self._adjust_process_count()
+            if _verif.ENABLED:
+                _verif.point("resize.after_adjust")
             # Wake up the executor manager thread so that it also watches the
             # sentinels of the newly spawned workers.
             thread_wakeup = self._executor_manager_thread_wakeup
